@@ -433,7 +433,7 @@ pub fn run_c10(run: &Run) {
     run.assume("large instances: complete models only if the grounded interpretation leaves <= 5 statements undecided, stable/two-valued only if <= 9");
     let quick = run.quick();
     // A(2): everything
-    let a2 = Source::FamCompact(fam_a(2));
+    let a2 = Source::Fam(fam_a(2));
     let per = 24 * 3 * RENAMINGS as u64 * 2;
     let res = run.par_family(
         "A(2) x 24 fact orders x 3 sortings x 9 renamings x 2 layouts",
